@@ -123,7 +123,7 @@ func buildWKB(g wkbG, used map[int]bool) geom.T {
 }
 
 // ordinate projections: as token (C03) or as the 8 bytes of the IEEE image, most significant first (C04)
-func ordTok(f float64) any { return f2tok(f) }
+func ordTok(f float64) any   { return f2tok(f) }
 func ordBytes(f float64) any { return bytes8(f) }
 func bytes8(f float64) []int {
 	u := math.Float64bits(f)
@@ -491,15 +491,24 @@ type scanValuer interface {
 func sqlWrappers(flavor string) map[string]func() (scanValuer, func() geom.T) {
 	if flavor == "ewkb" {
 		return map[string]func() (scanValuer, func() geom.T){
-			"PT":  func() (scanValuer, func() geom.T) { w := &ewkb.Point{}; return w, func() geom.T { return w.Point } },
-			"LS":  func() (scanValuer, func() geom.T) { w := &ewkb.LineString{}; return w, func() geom.T { return w.LineString } },
-			"PG":  func() (scanValuer, func() geom.T) { w := &ewkb.Polygon{}; return w, func() geom.T { return w.Polygon } },
-			"MPT": func() (scanValuer, func() geom.T) { w := &ewkb.MultiPoint{}; return w, func() geom.T { return w.MultiPoint } },
+			"PT": func() (scanValuer, func() geom.T) { w := &ewkb.Point{}; return w, func() geom.T { return w.Point } },
+			"LS": func() (scanValuer, func() geom.T) {
+				w := &ewkb.LineString{}
+				return w, func() geom.T { return w.LineString }
+			},
+			"PG": func() (scanValuer, func() geom.T) { w := &ewkb.Polygon{}; return w, func() geom.T { return w.Polygon } },
+			"MPT": func() (scanValuer, func() geom.T) {
+				w := &ewkb.MultiPoint{}
+				return w, func() geom.T { return w.MultiPoint }
+			},
 			"MLS": func() (scanValuer, func() geom.T) {
 				w := &ewkb.MultiLineString{}
 				return w, func() geom.T { return w.MultiLineString }
 			},
-			"MPG": func() (scanValuer, func() geom.T) { w := &ewkb.MultiPolygon{}; return w, func() geom.T { return w.MultiPolygon } },
+			"MPG": func() (scanValuer, func() geom.T) {
+				w := &ewkb.MultiPolygon{}
+				return w, func() geom.T { return w.MultiPolygon }
+			},
 			"GC": func() (scanValuer, func() geom.T) {
 				w := &ewkb.GeometryCollection{}
 				return w, func() geom.T { return w.GeometryCollection }
@@ -507,15 +516,24 @@ func sqlWrappers(flavor string) map[string]func() (scanValuer, func() geom.T) {
 		}
 	}
 	return map[string]func() (scanValuer, func() geom.T){
-		"PT":  func() (scanValuer, func() geom.T) { w := &wkb.Point{}; return w, func() geom.T { return w.Point } },
-		"LS":  func() (scanValuer, func() geom.T) { w := &wkb.LineString{}; return w, func() geom.T { return w.LineString } },
-		"PG":  func() (scanValuer, func() geom.T) { w := &wkb.Polygon{}; return w, func() geom.T { return w.Polygon } },
-		"MPT": func() (scanValuer, func() geom.T) { w := &wkb.MultiPoint{}; return w, func() geom.T { return w.MultiPoint } },
+		"PT": func() (scanValuer, func() geom.T) { w := &wkb.Point{}; return w, func() geom.T { return w.Point } },
+		"LS": func() (scanValuer, func() geom.T) {
+			w := &wkb.LineString{}
+			return w, func() geom.T { return w.LineString }
+		},
+		"PG": func() (scanValuer, func() geom.T) { w := &wkb.Polygon{}; return w, func() geom.T { return w.Polygon } },
+		"MPT": func() (scanValuer, func() geom.T) {
+			w := &wkb.MultiPoint{}
+			return w, func() geom.T { return w.MultiPoint }
+		},
 		"MLS": func() (scanValuer, func() geom.T) {
 			w := &wkb.MultiLineString{}
 			return w, func() geom.T { return w.MultiLineString }
 		},
-		"MPG": func() (scanValuer, func() geom.T) { w := &wkb.MultiPolygon{}; return w, func() geom.T { return w.MultiPolygon } },
+		"MPG": func() (scanValuer, func() geom.T) {
+			w := &wkb.MultiPolygon{}
+			return w, func() geom.T { return w.MultiPolygon }
+		},
 		"GC": func() (scanValuer, func() geom.T) {
 			w := &wkb.GeometryCollection{}
 			return w, func() geom.T { return w.GeometryCollection }
